@@ -17,7 +17,7 @@ def e1(what, space, oracle, rest=''):
             'Trusted: the reference model, the Go toolchain. Not covered: inputs outside the declared alphabets/bounds (DESIGN.md section 7).')
 
 CHECKS = {
-    'C01': e1('running bit count', 'bitmaps <=6 words over a 12-word core alphabet and <=4 words with one word from a 245-word wide alphabet (thorough 7/5) x every position x every index flavour, plus a length sweep (every length 0..520 words, thorough 2100, x 4 patterns) in which every returned index is re-checked after the next one has been built', 'a bit-by-bit running count') + ('DESIGN.md section 4 C01',),
+    'C01': e1('running bit count', 'bitmaps <=6 words over a 12-word core alphabet and <=4 words with one word from a 245-word wide alphabet (thorough 7/5) x every position x every index flavour, plus a length sweep (every length 0..520 words, thorough 2100, x 4 patterns) in which every returned index is re-checked after the next one has been built, plus ~9000 single words by population class (one / two / three 0-bits, 0-runs at boundary positions, complements, every popcount) in 4 placements', 'a bit-by-bit running count') + ('DESIGN.md section 4 C01',),
     'C02': e1('naive 1-position scan', 'the C01 bitmap spaces, long sparse bitmaps (20..70 words, thorough 130, all zero except <=3 islands of popcount 1/2/31/32/33/63/64 at every position), a length sweep 0..520 words with index re-check, and the byte-lane sweep (every byte value in every lane under every 00/ff background, 3 embeddings) x every valid i x both selects and both index builders', 'the list of 1-positions of a naive scan') + ('DESIGN.md section 4 C02',),
     'C03': e1('recursive pre-order walk, release and -tags debug builds', 'every level mask of height <=12 x every node, plus mask/path families for every height <=30; the same enumeration again in a second binary built with -tags debug (complete to height 10)', 'an explicit recursive pre-order walk numbering stored nodes (closed form for tall trees, cross-checked against the walk)', ' Two configurations (release, debug contracts) are both enumerated.') + ('DESIGN.md section 4 C03',),
     'C04': e1('filter of the reference node list', 'every level mask of height <=5 x every ordered (from,to) pair of a boundary set around every node, height 6 with {p,p+-1} pairs, tall sparse masks to height 30 with narrow windows; Decode on every subset bitmap of masks with <=16 stored nodes x 4 bitmap shapes and empty/full/singleton/pair subsets to height 6', 'the stored nodes of the recursive walk, sorted and filtered') + ('DESIGN.md section 4 C04',),
@@ -27,11 +27,11 @@ CHECKS = {
     'C10': e1("'0'/'1' strings and string order", 'every height <=32 x length <=min(h,10) x every prefix, and every ordered pair of equal height', "the prefix as a '0'/'1' string; pre-order = string order") + ('DESIGN.md section 4 C10',),
     'C11': e1('slice of the bit string', 'every string of length <=5 over 6 bytes x every start bit in [0,8len+9] x every width 0..32; PathsOf on key lists of length <=4', "a slice of the string's '0'/'1' rendering, zero-extended") + ('DESIGN.md section 4 C11',),
     'C12': e1('set of ints; all Builder histories to depth 3', 'every subset of 11 boundary positions x 11 sizes x every probe in [-70, 64w+70), every subset of 8 far-apart positions; every OfMany sequence of <=3 segments (192-segment alphabet, positions >= size included) whose bits fit the result; every Builder history of <=3 operations over a 216-operation alphabet (and 4..5 over a 10-operation one) from two builders, with a bystander Builder operated between the steps', 'a set-of-ints model (bits, running offset, word count)') + ('DESIGN.md section 4 C12',),
-    'C13': e1('linear scan', 'every bitmap of 1..5 words over a 7-word alphabet x every range 0<=i<=end<=64len, plus long sparse bitmaps (24/33 words, <=2 islands at every pair of positions) x every range with ends near word boundaries', 'a linear scan of the range') + ('DESIGN.md section 4 C13',),
-    'C14': e1('bit copy / popcount accounting', '7 widths x every value list of length <=5 over 5 values and long lists (to 20 words) with <=2 deviations; every bitmap of <=3 words over 5 words x every 0<=from<=to<=64len and 20-word bitmaps x boundary ranges', 'low-w-bit extraction, popcount accounting and a bit-by-bit copy (result length included, input unchanged)') + ('DESIGN.md section 4 C14',),
+    'C13': e1('linear scan', 'every bitmap of 1..5 words over a 7-word alphabet x every range 0<=i<=end<=64len, plus long sparse bitmaps (24/33 words, <=2 islands at every pair of positions) x every range with ends near word boundaries, plus ~9000 single words by population class alone x every range and between two empty words', 'a linear scan of the range') + ('DESIGN.md section 4 C13',),
+    'C14': e1('bit copy / popcount accounting', '7 widths x every value list of length <=5 over 5 values and long lists (to 20 words) with <=2 deviations, run-structured lists (a head of 0..64/w+1 elements, a run of 1/2/8/20 words +-1 element, a tail); every bitmap of <=3 words over 5 words x every 0<=from<=to<=64len and 20-word bitmaps x boundary ranges', 'low-w-bit extraction, popcount accounting and a bit-by-bit copy (result length included, input unchanged)') + ('DESIGN.md section 4 C14',),
     'C16': e1('first difference / distinct truncations of bit strings', 'every non-empty subset of several small key universes (byte classes 00, ASCII, 7f/80, continuation, lead, ff; 4 stem variants) behind stems of 0..65 bytes and every stem length 0..80, four key sets of 31..341 keys taken whole, x every [s,e) x 6 values of m', "first differing index of the '0'/'1' renderings and the number of distinct truncated bit strings") + ('DESIGN.md section 4 C16',),
     'C17': e1('clause-by-clause verdict', 'the C16 key sets x every maxSize in 1..len+1', 'the clauses of the statement evaluated directly (boundaries, sizes, longest common prefix by comparison, strict prefix order)') + ('DESIGN.md section 4 C17',),
-    'C20': e1('size computed while building', 'every type of the kind grammar to depth 3 (thorough 4; 7 067 types, 21 242 values) built with reflect x a value-shape alphabet with deliberately shared pointers, long slices and maps, plus hand-written types (unexported/embedded fields, named types); Of and 10 Stat forms per value', 'the size the generator computed bottom-up while building the value') + ('DESIGN.md section 4 C20',),
+    'C20': e1('size computed while building', 'every type of the kind grammar to depth 3 (thorough 4; 7 067 types, 21 242 values) built with reflect x a value-shape alphabet with deliberately shared pointers, long slices and maps, plus hand-written types (unexported/embedded fields, named types), arrays and slices of 21 lengths to 4096 in every position, acyclic values that reach the same memory twice (sub-slices of siblings and ancestors, an arena tree) and NaN-keyed maps; Of and 10 Stat forms per value', 'the size the generator computed bottom-up while building the value') + ('DESIGN.md section 4 C20',),
     'C15': (E2, 'model_checking', 'explicit-state BFS over real TailBitmap objects with a set model and an invariant on every transition',
             'All states reachable from 11 starts (empty at 3 offsets, three prefilled words in 3 fill orders x 2 offsets, two starts crossing the real 1024-word reclaim threshold) under the per-state alphabet {Set(every hole), Set below Offset, Set beyond the end, Set of a set bit, Compact} are generated by cloning the real object and calling the real method; the full invariant (all Get/Get1 in a window, Offset alignment/monotonicity, no skipped 0, first word not all-ones, Compact changes no Get) is evaluated after EVERY transition before deduplication by a key of every field; every state is re-reached by fresh replay of its shortest path, and a sample of states once more with a second TailBitmap operated between the steps. Right level: the property is about histories of a small mutable object whose reachable state space under this alphabet is finite and fully searched.',
             'Trusted: the set-of-ints model; the clone (struct copy + deep copy of Words). Histories outside the alphabet are not covered.', 'DESIGN.md section 4 C15'),
